@@ -55,6 +55,8 @@ type GenOpt struct {
 	Rejects     bool // include requests that must be rejected (unknown session, no association)
 	Apps        bool // provision PFDs and reference application ids
 	FarBias     bool // most modifications are FAR updates (C14)
+	PeerBase    int  // the generator's peers are p<PeerBase+1>.. (C11: one generator per concurrent association)
+	SessionOnly bool // only establishments, modifications and deletions (concurrent streams)
 }
 
 func NewGen(w *World, seed int64, opt GenOpt) *Gen {
@@ -67,7 +69,10 @@ func NewGen(w *World, seed int64, opt GenOpt) *Gen {
 	return g
 }
 
-func (g *Gen) peerName(i int) string { return fmt.Sprintf("p%d", i+1) }
+// MarkAssoc tells the generator that the peer is associated already.
+func (g *Gen) MarkAssoc(peer string) { g.assoc[peer] = true }
+
+func (g *Gen) peerName(i int) string { return fmt.Sprintf("p%d", g.Opt.PeerBase+i+1) }
 
 var boundary32 = []uint32{1, 2, 0x7fff, 0x8000, 0xffff, 0x10000, 0x7fffffff, 0x80000000, 0xfffffffe, 0xffffffff}
 
@@ -305,7 +310,7 @@ func (g *Gen) Step() bool {
 	peer := g.peerName(g.R.Intn(g.Opt.Peers))
 	live := g.liveSessions()
 
-	if g.R.Intn(25) == 0 { // sequence-number boundaries: 2^24-1, then the wrap to 0 and 1
+	if g.R.Intn(25) == 0 && !g.Opt.SessionOnly { // sequence-number boundaries: 2^24-1, then the wrap to 0 and 1
 		w.Peer(peer).SetSeq([]uint32{0xFFFFFD, 0xFFFFFE, 0x7FFFFF, 0}[g.R.Intn(4)])
 	}
 
@@ -330,6 +335,12 @@ func (g *Gen) Step() bool {
 	}
 
 	choice := g.R.Intn(100)
+	if g.Opt.SessionOnly {
+		choice = g.R.Intn(76)
+		if len(live) == 0 {
+			choice = 0
+		}
+	}
 
 	switch {
 	case choice < 22 && len(live) < g.Opt.MaxSessions:
